@@ -252,7 +252,8 @@ func anyExpr(g *xgen.G, rt *rapid.T, ctx *xdoc.Node) (e xast.Expr, nodeSet bool)
 
 func TestC04Rapid(t *testing.T) {
 	runRapid(t, uC04, func(rt *rapid.T) {
-		doc := xgen.Doc(rt, xgen.DefaultDoc())
+		shapedOpts, _ := xgen.Shaped(rt, xgen.DefaultDoc())
+		doc := xgen.Doc(rt, shapedOpts)
 		var doc2 *xdoc.Doc
 		if rapid.Bool().Draw(rt, "doc2-related") {
 			// a slightly edited copy: same expression, same "place", different answer
@@ -446,7 +447,8 @@ func oracleC04Inter(l *harness.Live) (nontrivial bool, f *harness.Failure) {
 
 func TestC04Interleaved(t *testing.T) {
 	runRapid(t, uC04Inter, func(rt *rapid.T) {
-		doc := xgen.Doc(rt, xgen.DefaultDoc())
+		shapedOpts, _ := xgen.Shaped(rt, xgen.DefaultDoc())
+		doc := xgen.Doc(rt, shapedOpts)
 		var doc2 *xdoc.Doc
 		switch rapid.IntRange(0, 2).Draw(rt, "doc2kind") {
 		case 0:
